@@ -100,3 +100,10 @@ if __name__ == "__main__":
       "Proof (partial: token level): for every token kind and every lexical choice of the printer Spec/TurtlePrinter.lean (IRIREF raw or \\u/\\U per rune in either hex case; four string styles with raw/ECHAR/UCHAR per rune; prefixed names raw, PN_LOCAL_ESC or PERCENT per rune; numeric and boolean shorthand; language tags; blank node labels) the decoder's producer returns the token's value (decode_print_*). Document level: Spec/TurtleAbstract.lean gives the abstract syntax of Turtle 1.1 / TriG 1.1, its denotation (Turtle section 7) and a printer with every lexical and layout choice; decode_print_partial proves, for every well-formed document with [ ] and ( ) nested to ANY depth, every choice, Turtle and TriG, base present or absent: TtlDoc.run (print doc ch) = denote doc, same statements in the same order, clean verdict (decode_print_real for the regenerated tables). It is named _partial because three exhibited decoder deviations are excluded by hypothesis and listed as known findings (keyword glued to the next token, prefix labels starting with true/false, U+1680 in prefix labels); the unrestricted statement stays a def, refuted by decide witnesses.",
       "Trusted: as C02/C05; the resolver is a parameter compared on a safe fragment (about 5% resolver skips); the printer prints no layout between a string and its @lang/^^datatype.",
       "Lean 4 printer/producer theorems per token kind + T3 of the statement machine against both decoders")
+    # C16: N-Triples/N-Quads part (the former hand-written props/C16.json, kept as props/C16NQ.part.json) + part C16X
+    # (Turtle/TriG token producers proved, statement layer and whole-document formats by oracle)
+    assemble("C16", [("C16NQ.part", None, None), ("C16X", None, None)],
+      "proof",
+      "N-Triples/N-Quads: machine-checked in full, for all inputs (arbitrary rune/size lists incl. ill-formed bytes), both stream endings, both packages, every initial offset: (1) the run with offset bookkeeping yields exactly the statements and verdict of the base decoder model, capture on or off; (2) after any number of successful Next calls the runes committed to the text writer followed by the unread input are exactly the input (commit discipline), the rune buffer offset is the size of the consumed prefix; (3) with capture on every statement has subject/predicate/object ranges and a graph range iff it has a graph name, each range delimits a segment of the input with the delimiters of the term's token, from/until are initial+bytes, initial line+LFs (every grapheme counter) and the exact line/column under the Simple hypothesis, inside the document with from <= until; (4) reports with initial offset o are the zero-offset reports translated by o; (5) the base decoder re-reads every range segment to the same term; (6) offsets attached to errors lie inside the document (repaired code; the unrepaired code is refuted by a decide witness). Turtle/TriG: machine-checked for the seven token producers of encoding/turtle and encoding/trig (produceIRIREF, produceString, producePNAME_NS, producePrefixedName, produceBlankNode, produceLANGTAG, produceNumericLiteral), all inputs, both endings, both packages, any writer history: erasure (the producer with bookkeeping returns exactly the value, remaining input, error class and panic outcome of Model.TurtleTokens, so capture never changes a token), commit discipline per call (a successful call consumes exactly pre++body and commits exactly those runes, in order, each once), the range delimits exactly the token body with From/Until = initial+bytes / line+LFs / exact position on Simple text, label/tag/numeric lexical form = range text, producer error offsets inside the input (repaired code, patches c16x-1/c16x-2; the unrepaired produceString is refuted by a decide witness). NOT proved, decided by the property oracle of go/cmd/c16x on the implementation (search, labelled as such): the Turtle/TriG STATEMENT layer (white space, punctuation and keyword commits between tokens, attachment of ranges to statements, capture on == off and the initial-offset shift at document level, re-decoding of every subject/predicate/object/graph slice in the prefix/base context in force: Model.TurtleDoc is not instrumented), and EVERYTHING about RDF/JSON, RDF/XML, JSON-LD, RDFa, Microdata, HTML-embedded JSON-LD and the combined HTML decoder, whose positions come from third-party tokenizer wrappers (inspectjson, inspectxml, inspecthtml): oracle only, over the W3C corpora shipped in the repository, grammar-directed documents and (except the HTML family) their byte-level mutations and truncations.",
+      "Trusted: Lean kernel; axioms propext/Classical.choice/Quot.sound at most; T1 extractors for the rune tables of the four packages; the T3 harnesses c16 (op nqo.dec: whole N-Triples/N-Quads documents, statements + four ranges + verdict + error offset, capture on/off, initial offsets, both endings) and c16x (op offx.tok: single Turtle/TriG tokens through the add-only hook VerifProduceOffsets) for the hand-written instrumented models, cursorio.TextWriter and RuneBuffer; textseg as a parameter (columns exact only on Simple text); bufio rune decoding; net/url as parameter; the oracle of c16x and its generators for the Turtle/TriG statement layer and for all whole-document formats (the oracle's XML scanner is itself compared with encoding/xml on every RDF/XML document). Whole-document formats: no theorem; RDF/XML and the HTML family carry trait- or class-keyed known findings (third-party attribute location), so for the HTML family C16 is decided only on trait-free documents and byte-level mutations of HTML are not part of the registered tiers.",
+      "Lean 4 refinement proofs (instrumented decoder model refines the base decoder model; invariant 'committed runes = consumed prefix'; exact characterisation of every reported range; translation lemma for the initial offset) for the N-Triples/N-Quads decoders at document level and for the Turtle/TriG token producers, about executable models tied by T1 tables and T3 differential correspondence (ops nqo.dec, offx.tok) + independent property oracle on the implementation for every decoder with offset capture (capture on == off, ranges inside and recomputed from the text, shift by the initial offset, slice re-decodes to the same term for NT/NQ/Turtle/TriG, syntactic boundary checks for the whole-document formats, error offsets inside)")
